@@ -52,6 +52,8 @@ def const_value(sym):
         return ("A", "ZERO")
     if sym == ("glob", "CreatorAddress"):
         return ("A", "CREATOR")
+    if sym == ("glob", "MinTxnFee"):
+        return 1000
     return None
 
 
@@ -235,6 +237,15 @@ class Program:
                 if op == "return":
                     stack = []
             elif op == "gtxns":
+                pop()
+                stack.append(("opaque",))
+            elif op in ("gtxna",):
+                stack.append(("opaque",))
+            elif op in ("gtxnsa", "gtxnas"):
+                pop()
+                stack.append(("opaque",))
+            elif op == "gtxnsas":
+                pop()
                 pop()
                 stack.append(("opaque",))
             else:
